@@ -184,7 +184,7 @@ func K6(variant int) *Entry {
 			F("InnerWhen", TS(), Null()), F("InnerKind", EnumT("Mode")))
 		deep := M("Deep", F("DeepName"), F("DeepInner", MsgT("Inner2"), NonNull(), Embed()))
 		inner2 := M("Inner2", F("SecondName"), F("SecondCount", Sc(ir.Uint32)))
-		holder := M("Holder", F("Title"), F("Inner", MsgT("Inner"), NonNull(), Embed()), F("Deep", MsgT("Deep"), NonNull(), Embed()),
+		holder := M("Holder", F("Title"), F("Inner", MsgT("Inner"), NonNull(), EmbedTag("inner_tag")), F("Deep", MsgT("Deep"), NonNull(), EmbedTag("deep,omitempty")),
 			F("Sub", MsgT("SubHolder")), F("Subs", MsgT("SubHolder"), Rep()))
 		sub := M("SubHolder", F("SubTitle"), F("SubInner", MsgT("Inner2"), NonNull(), Embed()))
 		f := file("k6a", holder, inner, deep, inner2, sub, M("Leaf", F("Name")))
@@ -193,7 +193,7 @@ func K6(variant int) *Entry {
 		return &Entry{Name: "k6a", File: f, Cfg: BaseConfig("Holder"), Tags: []string{"embed", "embed-in-nested"}}
 	case 1:
 		opt := M("Timing", F("MaxAge", Sc(ir.Int64), JSON("max_age"), Cast("Duration")), F("Deadline", TS(), NonNull()), F("Grace", Dur(), NonNull()))
-		holder := M("Policy", F("Title"), F("Timing", MsgT("Timing"), Embed()), F("Count", Sc(ir.Int64)))
+		holder := M("Policy", F("Title"), F("Timing", MsgT("Timing"), EmbedTag("timing,omitempty")), F("Count", Sc(ir.Int64)))
 		f := file("k6b", holder, opt)
 		AutoComments(f)
 		return &Entry{Name: "k6b", File: f, Cfg: BaseConfig("Policy"), Tags: []string{"embed?", "embed?-temporal-only"}}
@@ -227,6 +227,15 @@ func K7() *Entry {
 	f.Enums = []*ir.Enum{modeEnum()}
 	AutoComments(f)
 	return &Entry{Name: "k7", File: f, Cfg: BaseConfig("Outer", "Choice"), Tags: []string{"oneof", "oneof-nested", "empty-msg", "multi-root"}}
+}
+
+// K7X: K7 with the first declared branch of two oneof groups excluded (by Message.Field and by path).
+func K7X() *Entry {
+	e := K7()
+	Rename(e, "k7x")
+	e.Cfg.ExcludeFields = []string{"Choice.Text", "Outer.Left", "Outer.Direct.Sub"}
+	e.Tags = append(e.Tags, "excluded-oneof-branch")
+	return e
 }
 
 // K8: naming (json tags, overrides, lower_snake, acronyms with a fixed name).
@@ -283,11 +292,17 @@ func K10(depOtherPkg bool) *Entry {
 		Enums:    []*ir.Enum{{Name: "Color", Values: []ir.EnumValue{{"RED", 0}, {"GREEN", 1}, {"BLUE", 5}}}}}
 	if depOtherPkg {
 		dep.GoPackage = "vw/cases/" + name + "/" + name + "dep"
+		// a message with the same simple name (and a same-named field) as one of the generated file
+		dep.Messages = append(dep.Messages, M("Gamma", F("Note", Cmt(" Note of the dependency's Gamma,\n which is another message\n")), F("Weight", Sc(ir.Double))))
 	} else {
 		dep.Package = name
 	}
 	a := M("Alpha", F("Name"), F("Shared", DepMsg("Shared")), F("SharedValue", DepMsg("Shared"), NonNull()), F("SharedList", DepMsg("Shared"), Rep()),
 		F("SharedDict", DepMsg("Shared"), MapOf()), F("Tint", DepEnum("Color")), F("Tints", DepEnum("Color"), Rep()), F("Local", MsgT("Gamma")))
+	if depOtherPkg {
+		a.Fields = append(a.Fields, F("Foreign", DepMsg("Gamma")))
+		a.Fields[len(a.Fields)-1].Number = int32(len(a.Fields))
+	}
 	b := M("Beta", F("Title"), F("Gamma", MsgT("Gamma"), NonNull()), F("Count", Sc(ir.Uint64)))
 	g := M("Gamma", F("Note"), F("Level", Sc(ir.Sint32)))
 	f := file(name, a, b, g, M("Bystander", F("Ignored"), F("AlsoIgnored", TS())))
@@ -338,7 +353,7 @@ func K11(which int) *Entry {
 // Curated returns the curated corpus. known=true adds the isolated shapes that
 // are known not to compile on the pinned tree (D1, D2).
 func Curated() []*Entry {
-	return []*Entry{K1(), K2(), K3(), K4(), K5(), K6(0), K6(1), K6(2), K7(), K8(), K9(), K10(false), K10(true)}
+	return []*Entry{K1(), K2(), K3(), K4(), K5(), K6(0), K6(1), K6(2), K7(), K7X(), K8(), K9(), K10(false), K10(true)}
 }
 
 // Exotic returns the isolated shapes (K11).
